@@ -173,6 +173,12 @@ let res_s = function None -> "OK" | Some e -> "E " ^ err_s e
 
 let fresh_key = b_of_s "generated-key"
 
+(* canonical permission table, sorted: <hex type>:<r|-><w|->,... *)
+let perm_table (ps : (BinNums.coq_N list * Auth.perm) list) : string =
+  let es = Stdlib.List.map (fun (t, p) ->
+    hex_of_s (s_of_b t) ^ ":" ^ (if p.Auth.p_read then "r" else "-") ^ (if p.Auth.p_write then "w" else "-")) ps in
+  if es = [] then "-" else Stdlib.String.concat "," (Stdlib.List.sort compare es)
+
 (* [parse] for a gate line: the expected command text (trim-insensitive) denotes [desc] *)
 let parse_for (desc : string) (expected : string) : BinNums.coq_N list -> Auth.cmd option =
   fun t -> if Stdlib.String.trim (s_of_b t) = Stdlib.String.trim expected then cmd_of_desc desc else None
@@ -205,6 +211,10 @@ let run (t : string list) : string =
       let b x = if x then 1 else 0 in
       Printf.sprintf "r=%d w=%d a=%d" (b (Auth.can_read c (btext uid) (btext evt)))
         (b (Auth.can_write c (btext uid) (btext evt))) (b (Auth.is_admin c (btext uid)))
+  | ["auth_perms"; uid] ->
+      (match Auth.alookup (btext uid) !st.Auth.st_users with
+       | Some u -> "PT " ^ perm_table u.Auth.u_perms
+       | None -> "E nf")
   | ["auth_parse"; line] ->
       (match Auth.parse_auth (btext line) with
        | Some ((u, s), c) -> Printf.sprintf "P %s %s %s" (hex_of_s (s_of_b u)) (hex_of_s (s_of_b s)) (hex_of_s (s_of_b c))
@@ -228,7 +238,14 @@ let run (t : string list) : string =
        | None -> "PARSE"
        | Some c ->
            let (o, s) = Auth.dispatch !st (opt_b uid) c fresh_key in
-           st := s; outcome_s o)
+           st := s;
+           (* SHOW PERMISSIONS prints the user's permission table *)
+           (match c, o with
+            | Auth.CShowPerms id, Auth.OExec ->
+                (match Auth.alookup id !st.Auth.st_users with
+                 | Some u when u.Auth.u_perms <> [] -> "200 perms=" ^ perm_table u.Auth.u_perms
+                 | _ -> "200")
+            | _ -> outcome_s o))
   | ["auth_tcp"; conn; desc; expected; line] ->
       let cs = try Hashtbl.find conns conn with Not_found -> None in
       (* the token an AUTH on this line would produce: registered under slot "auth:<conn>" *)
